@@ -398,3 +398,18 @@ def register_buffers(reg):
                     "FinamDataError": lambda ctx: z3.BoolVal(True)},
             name="_source_updated",
         ))
+
+        # Adapter.source_updated for the caching adapters: the new entry is buffered before the targets are told (C11.1 / C01.4)
+        def su_order(cc, argmap):
+            d = cc.get(cc.self, "data")
+            return And(d.n >= 1, Not(is_none(d.at(d.n - 1).items[0])), sv.value_eq(d.at(d.n - 1).items[0], argmap["time"]))
+
+        reg.add(Contract(
+            "finam.sdk.adapter.Adapter.source_updated", self_cls=cls, props=["C11.1", "C01.4", "C12.1"], params={"time": Time},
+            requires=su_pre, modifies=lambda ctx, su_mod=su_mod: su_mod(ctx) + [(WORLD, "$notify_log")],
+            ensures=lambda ctx, r: z3.BoolVal(True),
+            raises={"FinamTimeError": lambda ctx: z3.BoolVal(True), "FinamNoDataError": lambda ctx: z3.BoolVal(True),
+                    "FinamDataError": lambda ctx: z3.BoolVal(True)},
+            call_checks={"notify_targets": su_order},
+            name=f"source_updated<{cls}>", primary=False,
+        ))
